@@ -68,12 +68,9 @@ theorem no_leak_parse_needs_ncname :
     parseRoot Witness.envBad Witness.ctx {} "Root".toList Witness.docColon = .error (.leaked "ValueError") :=
   ⟨rfl, rfl⟩
 
-/-- **parse_total.** The model functions are total Lean functions (`parseNode`,
-`parseKids`, `parseWild` recurse structurally on the tree, one call per element), so a
-result exists for every input: the tree-level parser cannot hang.  (Stated for the
-record; the content is that the definitions were accepted without `partial`.) -/
-theorem parse_total (e : BEnv) (Γ : Ctx) (cfg : ParserConfig) (c : ClassId) (t : Tree) :
-    ∃ r, parseRoot e Γ cfg c t = r := ⟨_, rfl⟩
+/- Totality ("never hang") is not a theorem here: `parseNode`/`parseKids`/`parseWild` (and their union-aware
+   versions) are structurally recursive Lean functions, accepted without `partial` and without fuel, so a result
+   exists for every input by construction; on the real code bounded time is a per-case cap in the check. -/
 
 /-! ## XML: byte level (`NodeParser.parse` around a tokenizer) -/
 
@@ -101,10 +98,22 @@ example :
     parseDocument Witness.env Witness.ctx {} "Root".toList .includeError = .error (.parser "xinclude error") :=
   ⟨rfl, rfl, rfl, rfl⟩
 
-/-- not well-formed ⇒ rejected, with `ParserError` -/
-theorem malformed_rejected (e : BEnv) (Γ : Ctx) (cfg : ParserConfig) (c : ClassId) :
-    ∃ m, parseDocument e Γ cfg c .syntaxError = .error (.parser m) := ⟨_, rfl⟩
+/-- **malformed_rejected.** Every way a tokenizer can fail to deliver a complete event stream — the
+`SyntaxError` of expat / libxml2, the codec errors of pyexpat's unknown-encoding callback, a failed
+xinclude, libxml2 stopping before the root element ends, character data lxml cannot decode — is
+reported as `ParserError`, whatever the universe, configuration and target class: a document that
+is not well-formed never yields an object and never another error type. -/
+theorem malformed_rejected (e : BEnv) (Γ : Ctx) (cfg : ParserConfig) (c : ClassId) (tok : Tok)
+    (h : ∀ t, tok ≠ .tree t) : ∃ m, parseDocument e Γ cfg c tok = .error (.parser m) := by
+  cases tok with
+  | tree t => exact absurd rfl (h t)
+  | syntaxError => exact ⟨_, rfl⟩
+  | codecError s => exact ⟨_, rfl⟩
+  | includeError => exact ⟨_, rfl⟩
+  | stopped => exact ⟨_, rfl⟩
+  | textDecodeError => exact ⟨_, rfl⟩
 
+example : ∀ t, Tok.codecError "LookupError" ≠ .tree t := fun _ h => by cases h
 
 /-! ## JSON: `JsonParser.parse` / `DictDecoder.decode`
 
